@@ -555,6 +555,30 @@ pub fn fixed<S: USet>(e: &mut Eng<S>, profile: &str) {
         e.op_ins(0, x);
     }
     e.op_ins(0, 64000);
+    // every layout conversion, deterministically (minimal growth keeps the table full)
+    for style in [0u64, 1, 4] {
+        e.begin(&format!("corpus-conversions-{}", style));
+        e.op_new(0);
+        e.draw_style = style;
+        e.force_style = Some(style);
+        for k in 0..64u64 {
+            e.draw_style = style;
+            e.op_ins(0, 3599 - k * 57);
+        }
+        for k in 0..120u64 {
+            e.draw_style = style;
+            e.op_ins(0, k);
+        }
+        e.op_ins(0, 200);
+        e.op_ins(0, 1 << 20);
+        e.op_ins(0, 3 << 20);
+        e.op_ins(0, (1u64 << (S::W - 2)) + 5);
+        e.op_ins(0, 0);
+        for k in 0..60u64 {
+            e.op_rem(0, k * 2);
+        }
+        crate::profiles::audit(e, 0, false);
+    }
     if profile == "iter" || profile == "core" {
         e.begin("corpus-D3-shortcuts");
         e.op_collect(0, &[0, 1, 2, 3, 4, 5, 6]);
